@@ -7,6 +7,7 @@ from vlib import hx, unhx
 
 ALPHABET = ["/", ":", ".", "a", "b", "-"]
 CURS = ["", "a", "a/b"]
+ODD_CURS = [".ci", ".a/b", "a/.b", "..", "./a", "/a", "//a", ".", "..a", "./.", "-a"]
 UNIV_PKGS = ["", "a", "b", "a/b", "a/a", "ab", "a-", "a.", "a/b/a", "a/", "/a", "a//b", "a./b", "a/.", "."]
 UNIV_NAMES = ["a", "b", "all", "...", "ab"]
 UNIVERSE = [(p, n) for p in UNIV_PKGS for n in UNIV_NAMES]
@@ -85,8 +86,16 @@ def run(out, tier):
             hs = hx(lat(s))
             lines.append("label\t%s\t%s" % (hc, hs)); meta.append(("label", cur, s))
             lines.append("pattern\t%s\t%s" % (hc, hs)); meta.append(("pattern", cur, s))
+    # current packages that LOOK like something else: hidden directories, dot segments, a leading slash (what reaches the parser
+    # through `grog run <script path>` or a directory the user stands in) x every short relative spelling
+    for cur in ODD_CURS:
+        hc = hx(lat(cur))
+        for s in [x for x in strings if len(x) <= 3 and not x.startswith("//")] + [":all", ":x", "x", "...", ":...", "b:c", "./x", ".x:y"]:
+            hs = hx(lat(s))
+            lines.append("label\t%s\t%s" % (hc, hs)); meta.append(("label", cur, s))
+            lines.append("pattern\t%s\t%s" % (hc, hs)); meta.append(("pattern", cur, s))
     for s in extra:
-        cur = rng.choice(CURS + extra_curs)
+        cur = rng.choice(CURS + extra_curs + ODD_CURS)
         hc, hs = hx(lat(cur)), hx(lat(s))
         lines.append("label\t%s\t%s" % (hc, hs)); meta.append(("label", cur, s))
         lines.append("pattern\t%s\t%s" % (hc, hs)); meta.append(("pattern", cur, s))
